@@ -141,7 +141,21 @@ fn pairs(v: &Value) -> Vec<(String, String)> {
 }
 
 /// Execute construction descriptors with the real constructors; returns the events to write
+/// the three conversions of a string pair into an `Attribute` (all documented to escape the value)
+fn attr_of<'a>(k: &'a str, v: &'a str, form: u8) -> Attribute<'a> {
+    match form % 3 {
+        0 => Attribute::from((k, v)),
+        1 => Attribute::from((k, std::borrow::Cow::Borrowed(v))),
+        _ => Attribute::from((k, std::borrow::Cow::Owned(v.to_string()))),
+    }
+}
+
 fn build(ops: &[Value], via_element_writer: &mut Vec<u8>) -> Vec<Event<'static>> {
+    build_with(ops, via_element_writer, 0)
+}
+
+/// `form` selects which `From<..> for Attribute` conversion is used for every pushed pair
+fn build_with(ops: &[Value], via_element_writer: &mut Vec<u8>, form: u8) -> Vec<Event<'static>> {
     let mut evs: Vec<Event<'static>> = Vec::new();
     let _ = via_element_writer;
     for d in ops {
@@ -150,7 +164,7 @@ fn build(ops: &[Value], via_element_writer: &mut Vec<u8>) -> Vec<Event<'static>>
             k @ ("start" | "empty") => {
                 let mut e = BytesStart::new(s(&a[1]));
                 for (key, val) in pairs(&a[2]) {
-                    e.push_attribute((key.as_str(), val.as_str()));
+                    e.push_attribute(attr_of(key.as_str(), val.as_str(), form));
                 }
                 for ed in a[3].as_array().unwrap() {
                     let ed = ed.as_array().unwrap();
@@ -161,10 +175,10 @@ fn build(ops: &[Value], via_element_writer: &mut Vec<u8>) -> Vec<Event<'static>>
                         "clear" => {
                             e.clear_attributes();
                         }
-                        "push" => e.push_attribute((s(&ed[1]).as_str(), s(&ed[2]).as_str())),
+                        "push" => e.push_attribute(attr_of(s(&ed[1]).as_str(), s(&ed[2]).as_str(), form)),
                         _ => {
                             let ps = pairs(&ed[1]);
-                            e.extend_attributes(ps.iter().map(|(k, v)| Attribute::from((k.as_str(), v.as_str()))));
+                            e.extend_attributes(ps.iter().map(|(k, v)| attr_of(k.as_str(), v.as_str(), form)));
                         }
                     }
                 }
@@ -191,7 +205,7 @@ fn build(ops: &[Value], via_element_writer: &mut Vec<u8>) -> Vec<Event<'static>>
                 let mut w = Writer::new(Vec::new());
                 let name = s(&a[1]);
                 let ps = pairs(&a[2]);
-                let ew = w.create_element(name.as_str()).with_attributes(ps.iter().map(|(k, v)| (k.as_str(), v.as_str())));
+                let ew = w.create_element(name.as_str()).with_attributes(ps.iter().map(|(k, v)| attr_of(k.as_str(), v.as_str(), form)));
                 match k {
                     "elem_text" => {
                         ew.write_text_content(BytesText::new(&s(&a[3]))).unwrap();
@@ -301,6 +315,17 @@ pub fn replay(file: &str, prop: &str, out_dir: &str) -> Value {
                 let mut scratch = Vec::new();
                 let evs = build(ops, &mut scratch);
                 let out = write_sync(&evs, None);
+                // the other conversions of a string pair into an attribute build the same bytes
+                for form in [1u8, 2] {
+                    let alt = write_sync(&build_with(ops, &mut scratch, form), None);
+                    cmp += 1;
+                    if alt != out && read_back(&alt).is_ok() && read_back(&alt) == read_back(&out) {
+                        drift += 1; // another spelling that reads back as the same events: tag I
+                    } else if alt != out {
+                        bad = bad.or(Some(("attribute-conversion-differs".into(), json!({"form": if form == 1 { "(&str, Cow::Borrowed)" } else { "(&str, Cow::Owned)" },
+                            "with_str_pair": String::from_utf8_lossy(&out), "with_cow": String::from_utf8_lossy(&alt)}))));
+                    }
+                }
                 let out_async = write_async(&evs, None);
                 runs += 2;
                 cmp += 3;
